@@ -47,6 +47,7 @@ import (
 )
 
 const c24SentinelIdx = 5
+const c24TickIdx = 6
 
 const c24Deadline = 120 * time.Second
 
@@ -57,9 +58,10 @@ var c24Keys = []model.Key{
 	model.WorkloadEndpointKey{Hostname: "n2", OrchestratorID: "k8s", WorkloadID: "ns/pod1", EndpointID: "eth0"},
 	model.ResourceKey{Kind: internalapi.KindNode, Name: "node1"},
 	model.HostConfigKey{Hostname: "verif", Name: "sentinel"}, // c24SentinelIdx
+	model.HostConfigKey{Hostname: "verif", Name: "tick"},     // c24TickIdx (wire layer only)
 }
 
-var c24KeyNames = []string{"hA", "hB", "w0", "w1", "nd", "SENT"}
+var c24KeyNames = []string{"hA", "hB", "w0", "w1", "nd", "SENT", "TICK"}
 
 func c24Paths() []string {
 	ps := make([]string, len(c24Keys))
